@@ -117,7 +117,7 @@ def check_write(case, cc):
         cc.cls('excluded-ambiguous-reversed')
         return
     # whole record reads of the reference file
-    fr = File.FileRead(io.BytesIO(ref), 'generated', False)
+    fr = File.FileRead(engine.handle(ref), 'generated', False)
     out = []
     starts = []
     for _ in range(len(lrs) + 2):
@@ -183,7 +183,7 @@ class ReadState:
         if self.skipcase:
             cc.cls('excluded-ambiguous-reversed')
             return
-        self.fr = File.FileRead(io.BytesIO(data), 'generated', False)
+        self.fr = File.FileRead(engine.handle(data), 'generated', False)
         self.k = 0
         self.o = 0
         self.phase = 'head'
@@ -395,7 +395,7 @@ def check_strip(case, cc):
     n_prs = sum(len(p) for p in model['prs'])
     cc.nt(n_prs >= 2)
     out = KeepOpen()
-    markers, written = DeTif.strip_tif(io.BytesIO(tif_bytes), out)
+    markers, written = DeTif.strip_tif(engine.handle(tif_bytes), out)
     if out.getvalue() != plain:
         cc.dev('strip-tif==plain', 'stripped-bytes', 'stripped %d bytes, plain file has %d' % (len(out.getvalue()), len(plain)))
     if written != len(plain):
